@@ -5,6 +5,8 @@ import Ovsdb.CodecUpdates
 import Ovsdb.CodecCache
 import Ovsdb.Model.Client
 import Ovsdb.Model.Modelgen
+import Ovsdb.Model.Naming
+import Ovsdb.Generated.Facts
 /-
   Lean.Json <-> Wire.J, and the canonical rendering of decoded values for the
   correspondence check of the wire decoders (C19, C12).
@@ -290,5 +292,18 @@ def fieldTypeFn (j : Json) : P Json := do
       ("enumsErased", .str (goTypeToString (fieldType alias c true).erase))]
   | .err e => return Json.mkObj [("err", .str e)]
   | .panic => return Json.mkObj [("err", .str "panic")]
+
+/-- the identifiers modelgen derives from a table and a column name, with the initialism table the
+    extractor read from modelgen/table.go -/
+def namesFn (j : Json) : P Json := do
+  let table ← jStr (← jField j "table")
+  let column ← jStr (← jField j "column")
+  let inits := Generated.modelgenInitialisms.map Naming.ofString
+  let t := Naming.ofString table
+  let c := Naming.ofString column
+  return Json.mkObj [("field", .str (Naming.toString (Naming.fieldName inits c))),
+    ("struct", .str (Naming.toString (Naming.structName t))),
+    ("file", .str (Naming.toString (Naming.fileName t))),
+    ("enum", .str (Naming.toString (Naming.enumName inits t c)))]
 
 end Ovsdb
